@@ -5,7 +5,7 @@ from core import strip_ids
 
 COPY_PARENT = os.path.join(core.BUILD, "rules_copy")
 COPY = os.path.join(COPY_PARENT, "Rules")
-FAULTS = ["deleted", "empty", "truncated", "wrong_type", "bad_xpath", "unknown_key", "garbage"]
+FAULTS = ["deleted", "empty", "truncated", "wrong_type", "bad_xpath", "unknown_key", "garbage", "malformed_entry"]
 EXPRS = ["<math><mfrac><mn>1</mn><mrow><mi>x</mi><mo>+</mo><mn>2.5</mn></mrow></mfrac><mo>⨁</mo><msup><mi>A</mi><mn>2</mn></msup></math>",
          "<math><mrow><mi>sin</mi><mo>⁡</mo><mi>x</mi><mo>=</mo><msqrt><mn>3</mn></msqrt><mo>⟹</mo><mi>ℏ</mi></mrow></math>"]
 
@@ -51,6 +51,24 @@ def apply_fault(path, kind, rng):
             new = text[:m.start()] + m.group(1) + '"((( and ]"' + text[m.end():]
         if n == 0:
             new = re.sub(r'(\[\s*[tx]:\s*)"[^"\n]*"', r'\1"\\ud800"', text, count=1) if False else text.replace("- ", "- [[[", 1)
+    elif kind == "malformed_entry":
+        # valid YAML whose entries have the wrong shape for the kind of file: an empty character, a range without one of its ends, a range over
+        # the surrogates, a number list that is not a list, a rule whose replacement is a scalar
+        base_name = os.path.basename(path)
+        entries = [m for m in re.finditer(r'^(\s*)- ', text, flags=re.M)]
+        ind = entries[0].group(1) if entries else ""
+        if base_name.startswith("unicode"):
+            bad = rng.choice(['- "": [t: "x"]', '- "a-": [t: "x"]', '- "-z": [t: "x"]', '- "\\uD7FF-\\uE000": [t: "x"]', '- "ab": 3', '- 5: [t: "x"]', '- "q": {t: [1, 2]}'])
+        elif base_name.startswith("definitions"):
+            bad = rng.choice(['- NumbersOnes: 3', '- NumbersTens: {a: b}', '- Foo_vec: "x"', '- TrigFunctionNames: [a, b]', '- 7: {a: b}', '- LikelyFunctionNames: {a: [1]}'])
+        else:
+            bad = rng.choice(['- name: x\n' + ind + '  tag: mi\n' + ind + '  match: "."\n' + ind + '  replace: 3', '- name: [a]\n' + ind + '  tag: {b: c}\n' + ind + '  match: 1\n' + ind + '  replace: [t: 2]',
+                              '- name: x\n' + ind + '  tag: mi\n' + ind + '  match: "."\n' + ind + '  replace: [test: 3]', '- name: x\n' + ind + '  tag: mi\n' + ind + '  match: "."\n' + ind + '  variables: 4\n' + ind + '  replace: [t: "x"]'])
+        if entries:
+            m = entries[rng.randrange(0, max(1, len(entries) // 4))]
+            new = text[:m.start()] + ind + bad + "\n" + text[m.start():]
+        else:
+            new = bad + "\n" + text
     elif kind == "unknown_key":
         new = re.sub(r"^(\s*)(name|tag):", r"\1nmae:", text, count=1, flags=re.M)
         if new == text:
@@ -136,7 +154,7 @@ def run(ctx):
         targets = [(f, k) for f in reachable for k in FAULTS]
         if ctx.tier == "quick":
             # the lazily loaded tables and the shared ones first (a failure in the middle of their load is the delicate case), then a sample
-            must = [(f, k) for f in reachable for k in ("bad_xpath", "truncated") if os.path.basename(f) in ("unicode-full.yaml", "unicode.yaml", "definitions.yaml")]
+            must = [(f, k) for f in reachable for k in ("bad_xpath", "truncated", "malformed_entry") if os.path.basename(f) in ("unicode-full.yaml", "unicode.yaml", "definitions.yaml")]
             targets = must + rng.sample(targets, 30)
         for f, kind in targets:
             n_scen += 1
